@@ -384,7 +384,7 @@ def rule_maskset(ctx, R, F):
                                 if dd.get('id') == off['id'] and 'init' in dd:
                                     cand = strip_all(dd['init'])
                                     desc = '%s %s = %s' % (dd['ty'], dd['name'], show(cand))
-                                    if dd['ty'] not in ('unsigned int',):
+                                    if dd['ty'].replace('const ', '').strip() not in ('unsigned int',):
                                         cand = None
                 if cand is not None and cand['k'] == 'Bin' and cand['op'] == '&' and show(cand['r']).endswith('.memMask'):
                     okf = True
